@@ -68,6 +68,24 @@ CLAIMED = {
         technique="SCC of the monomorphic call graph + MIR dominators + type-containment finiteness argument",
         design_ref="DESIGN.md section 4 C18",
     ),
+    "C22": dict(
+        level="other",
+        text="Provenance of source and target at every add_edge site of ScheduledBasicBlock::build: sources are BlockStart or nodes drawn from a dependency queue / the pending-memory results / the trailing set; targets are the loop's current node or BlockEnd; queues and the trailing set receive only the current node; memory edges are guarded against self-edges; frame queues start from BlockStart; all pending nodes and the empty block are linked to BlockEnd. Forward-only edges imply acyclicity for every block. Reachability for RF instructions matching no frame is not decided.",
+        technique="MIR origin-expression provenance at graph-mutation call sites + dominance of the self-edge guard",
+        design_ref="DESIGN.md section 4 C22",
+    ),
+    "C23": dict(
+        level="other",
+        text="The dependency-queue protocol and its wiring decided structurally: the result is seeded from the pending write; the Write arm moves all pending reads into the result and replaces the pending write; the Read arm only adds to the pending reads; into_pending_dependencies returns both; MemoryAccessType::classify maps Read->Read, Write|Capture->Write with no initial writer; build pairs accesses.reads/writes/captures with Read/Write/Capture, uses one queue per region and creates AwaitMemoryAccess edges. Transitivity and the correctness of memory_accesses (C27) are not decided here.",
+        technique="per-arm field-store / call-effect analysis over MIR, table extraction from match arms",
+        design_ref="DESIGN.md section 4 C23",
+    ),
+    "C24": dict(
+        level="other",
+        text="Wiring table of the four frame-queue call sites of the RFControl arm: which frame set is iterated (used/blocked), the interaction constant (Using/Blocking), the identity of the queue map (timed vs untimed, two distinct maps), control dependence of the timed-queue calls on is_scheduled, per-frame keying, and the edge kind created from each call's result (Scheduled vs StableOrdering); InstructionFrameInteraction::classify maps Blocking->Read, Using->Write. Transitive ordering and matching_frames (C26) are not decided here.",
+        technique="call-site table extraction from MIR (argument constants, receiver provenance, dominating condition, consumer edge kind)",
+        design_ref="DESIGN.md section 4 C24",
+    ),
     "C26": dict(
         level="other",
         text="Table agreement for the default frame rules: default_frame_match_condition (no catch-all) constructs, per Instruction variant, exactly the condition kinds of the Quil-T rules for used and blocked (blocked depends on the blocking flag); each condition kind is evaluated with the right quantifier in get_matching_keys_for_condition; FrameSet::filter removes used frames from blocked; and, at the type level, the region signatures of matching_frames / filter / get_matching_keys_for_condition tie the returned frame references to the program's FrameSet borrow and not to the instruction, so reported frames are the program's own. Set contents for concrete frame sets are not decided.",
